@@ -208,7 +208,7 @@ def _inc_protected(fx, col):
 
 PROPERTIES['C01']['run'] = _run([R.rule_publish_confirm, R.rule_intent_first, R.rule_pay_before_release, R.rule_cover_all,
                                  P.rule_never_freed, R.rule_claim_empty, _ord_c01, _inc_protected])
-PROPERTIES['C02']['run'] = _run([L.rule_ledger, L.rule_bypass, R.rule_pay_used, O.rule_pay_cas, R.rule_slot_closed, R.rule_cover_all])
+PROPERTIES['C02']['run'] = _run([L.rule_ledger, L.rule_bypass, R.rule_pay_used, O.rule_pay_cas, R.rule_slot_closed, R.rule_cover_all, A.rule_no_stash])
 
 prop('C03', 'loads are linearizable (provenance clause)',
      [R.rule_publish_confirm, R.rule_intent_first, I.rule_addr_guard, I.rule_addr_before_gen, I.rule_own_storage, R.rule_pay_before_release, A.rule_no_stash, _ord_seq],
